@@ -49,7 +49,12 @@ class Gen:
             return ("pv", self.binder_name(), self.fresh())
         if r < 0.75:
             return ("pw",)
-        return ("pt", [self.pat(depth - 1) for _ in range(self.rng.randint(2, 3))])
+        sub = [self.pat(depth - 1) for _ in range(self.rng.randint(2, 3))]
+        # the same binding structure written as a tuple, a struct pattern (explicit or shorthand fields) or a constructor pattern
+        forms = ["tuple", "struct", "ctor"]
+        if all(q[0] == "pv" and q[1] in LOCALS for q in sub) and len({q[1] for q in sub}) == len(sub):
+            forms += ["short", "short"]
+        return ("pt", sub, self.rng.choice(forms))
 
     def block(self, depth):
         n = self.rng.randint(1, 4)
@@ -129,6 +134,13 @@ def src_pat(p):
         return p[1]
     if p[0] == "pw":
         return "_"
+    form = p[2] if len(p) > 2 else "tuple"
+    if form == "struct":
+        return "S%d { %s }" % (len(p[1]), ", ".join("f%d: %s" % (i, src_pat(q)) for i, q in enumerate(p[1])))
+    if form == "ctor":
+        return "K%d(%s)" % (len(p[1]), ", ".join(src_pat(q) for q in p[1]))
+    if form == "short":
+        return "Sxyz { %s }" % ", ".join(q[1] for q in p[1])
     return "(" + ", ".join(src_pat(q) for q in p[1]) + ")"
 
 
@@ -170,7 +182,10 @@ def src(e):
 
 def program(params, body):
     assert body[0] == "block"
-    return "fn f(%s) -> int32 {\n    %s;\n    1\n}\nfn g() -> int32 { 1 }\n" % (", ".join("%s: int32" % src_pat(p) for p in params), "; ".join(src(e) for e in body[1]))
+    return TYPES_DECL + "fn f(%s) -> int32 {\n    %s;\n    1\n}\nfn g() -> int32 { 1 }\n" % (", ".join("%s: int32" % src_pat(p) for p in params), "; ".join(src(e) for e in body[1]))
+
+
+TYPES_DECL = "struct S2 { f0: int32, f1: int32 }\nstruct S3 { f0: int32, f1: int32, f2: int32 }\nstruct Sxyz { x: int32, y: int32, z: int32 }\nenum K { K2(int32, int32), K3(int32, int32, int32) }\n"
 
 
 # ---- orders ----
@@ -277,7 +292,8 @@ def coq_expr(e):
     raise KeyError(k)
 
 
-TOKEN = re.compile(r"local/\d+/(\d+)|def/\d+/(\d+)|([A-Za-z_][A-Za-z_0-9]*)/(\d+)|\b(x|y|z|w|g|string_print)\b(?!/)")
+TOKEN = re.compile(r"local/\d+/(\d+)|def/\d+/(\d+)|([A-Za-z_][A-Za-z_0-9]*)/(\d+)|\b(x|y|z|w|g|string_print)\b(?!/)(?!\s*:)")
+CTOR = re.compile(r"ctor\(def/\d+/\d+::v\d+\)")
 
 
 def parse_hir(text):
@@ -285,7 +301,7 @@ def parse_hir(text):
     i = text.index("fn f(")
     j = text.index("fn g(", i)
     toks = []
-    for m in TOKEN.finditer(text[i + 3 : j]):
+    for m in TOKEN.finditer(CTOR.sub("ctor", text[i + 3 : j])):
         if m.group(1) is not None:
             toks.append(("bind", int(m.group(1))))
         elif m.group(2) is not None:
